@@ -114,7 +114,10 @@ func lockBlocked(kind uint8, addr unsafe.Pointer) bool {
 	case vsched.KLock:
 		return (*Mutex)(addr).held()
 	case vsched.KRLock:
-		return (*RWMutex)(addr).writer != 0
+		m := (*RWMutex)(addr)
+		// a writer that is already waiting for the readers to leave goes first (Go's RWMutex:
+		// "a blocked Lock call excludes new readers"), so a recursive read lock can deadlock
+		return m.writer != 0 || (m.readers != 0 && vsched.WriterWaiting(addr))
 	case vsched.KWLock:
 		m := (*RWMutex)(addr)
 		return m.writer != 0 || m.readers != 0
